@@ -520,7 +520,23 @@ def iter1(ctx) -> List[Ob]:
                     for d2 in cfg.reaching_defs(d.stmt, nm_.id):
                         if d2.stmt is not None and isinstance(d2.stmt, (ast.Assign, ast.AnnAssign)) and d2.stmt.value is not None:
                             seeds.append(A.unparse(d2.stmt.value).replace("'0'", "['0']") if isinstance(d2.stmt.value, ast.Constant) else A.unparse(d2.stmt.value))
-        if seeds and all("find_head()" in s_ or "['0']" in s_ or "head" in s_ for s_ in seeds) and any("find_head()" in s_ for s_ in seeds):
+        # a constant start name is only a fallback: it may be bound in an `except` handler (find_head failed),
+        # never chosen by a test on the graph
+        const_seed_defs = []
+        for d in cfg.reaching_defs(w, work):
+            if d.stmt is None:
+                continue
+            stmts_ = [d.stmt]
+            for nm_ in [x for x in ast.walk(d.stmt) if isinstance(x, ast.Name) and isinstance(x.ctx, ast.Load)]:
+                stmts_ += [d2.stmt for d2 in cfg.reaching_defs(d.stmt, nm_.id) if d2.stmt is not None]
+            for st_ in stmts_:
+                v_ = getattr(st_, "value", None)
+                if v_ is not None and any(isinstance(c_, ast.Constant) and isinstance(c_.value, str) for c_ in ast.walk(v_)) and "find_head" not in A.unparse(v_):
+                    if not any(isinstance(a_, ast.ExceptHandler) for a_ in A.ancestors(st_)):
+                        const_seed_defs.append(st_)
+        if const_seed_defs:
+            out.append(bad("ITER-1", fn.qualname, "seeded with the head", ctx.where(fn, const_seed_defs[0]), f"the walk can start from a fixed name ('{A.unparse(const_seed_defs[0])[:40]}') chosen outside the fallback for a failed find_head(): a graph whose head has another name is enumerated from the wrong block"))
+        elif seeds and all("find_head()" in s_ or "['0']" in s_ or "head" in s_ for s_ in seeds) and any("find_head()" in s_ for s_ in seeds):
             out.append(ok("ITER-1", fn.qualname, key, ctx.where(fn, w), f"work-list starts from {seeds[0][:60]}"))
         else:
             out.append(bad("ITER-1", fn.qualname, key, ctx.where(fn, w), f"the walk does not start from the head of the graph ({seeds[:1]}): items are missed or come before their predecessors"))
@@ -598,6 +614,20 @@ def iter1(ctx) -> List[Ob]:
                 out.append(ok("ITER-1", fn.qualname, key, ctx.where(fn, w), f"a region is followed by everything inside it ({A.unparse(rec[0])}), then its targets ({plain[0]})"))
             else:
                 out.append(bad("ITER-1", fn.qualname, key, ctx.where(fn, w), f"the hierarchy walk does not descend into regions (yield from <region>.subregion) or does not continue at the block's jump targets ({ext_args})"))
+    # the view's __iter__ is the walk: every path returns region_view_iterator(..) (no shortcut through the
+    # storage order of the graph)
+    cv = prog.cls("ConcealedRegionView")
+    vi = cv.methods.get("__iter__")
+    if vi is not None:
+        rets = [r for r in A.walk_no_nested(vi.node) if isinstance(r, ast.Return)]
+        other = [r for r in rets if not (r.value is not None and rv.name in A.unparse(r.value))]
+        key = "the view iterates by walking from the head"
+        if rets and not other:
+            out.append(ok("ITER-1", vi.qualname, key, ctx.where(vi), f"every path returns {rv.name}()"))
+        elif other:
+            out.append(bad("ITER-1", vi.qualname, key, ctx.where(vi, other[0]), f"on some path the view returns '{A.unparse(other[0])[:50]}' instead of walking the graph from its head: the order (head first, every item after a predecessor) and the concealment of regions are lost"))
+        else:
+            out.append(unresolved("ITER-1", vi.qualname, key, ctx.where(vi), "cannot see what the view's __iter__ returns"))
     return out
 
 
